@@ -21,7 +21,18 @@ func (fc *FuncCtx) cevalIn(env *CEnv, c *Clause, n ast.Node) (t Term) {
 			panic(r)
 		}
 	}()
-	return env.eval(c.Expr)
+	var side []string
+	setSide(env, &side)
+	t = env.eval(c.Expr)
+	seen := map[string]bool{}
+	for _, f := range side {
+		if !seen[f] && !fc.sideSeen[f] {
+			seen[f] = true
+			fc.sideSeen[f] = true
+			fc.facts = append(fc.facts, f) // every cell of a real []byte / []uintN is in range
+		}
+	}
+	return t
 }
 
 // codeEnv exposes the variables visible at a source position by name.
@@ -61,7 +72,7 @@ func (w *World) verifyFunc(key string) (fc *FuncCtx) {
 	decl := w.FuncDecls[key]
 	pkg := w.FuncPkg[key]
 	obj := w.FuncObj[key]
-	fc = &FuncCtx{w: w, pkg: pkg, info: pkg.TypesInfo, key: key, decl: decl, obj: obj, contract: w.Contracts[key], counter: map[string]int{}, allVars: map[*types.Var]bool{}, usedContracts: map[string]bool{}}
+	fc = &FuncCtx{w: w, pkg: pkg, info: pkg.TypesInfo, key: key, decl: decl, obj: obj, contract: w.Contracts[key], counter: map[string]int{}, allVars: map[*types.Var]bool{}, usedContracts: map[string]bool{}, sideSeen: map[string]bool{}}
 	defer func() {
 		if r := recover(); r != nil {
 			if te, ok := r.(translateErr); ok {
@@ -340,7 +351,7 @@ func (fc *FuncCtx) specialEffects(st *State, call *ast.CallExpr, fn *types.Func,
 // verifyLemma turns a lemma (closed formula over typed parameters) into one obligation.
 func (w *World) verifyLemma(l *Lemma) (fc *FuncCtx) {
 	pkg := l.Pkg
-	fc = &FuncCtx{w: w, pkg: pkg, key: "lemma." + l.Name, counter: map[string]int{}, allVars: map[*types.Var]bool{}, usedContracts: map[string]bool{}}
+	fc = &FuncCtx{w: w, pkg: pkg, key: "lemma." + l.Name, counter: map[string]int{}, allVars: map[*types.Var]bool{}, usedContracts: map[string]bool{}, sideSeen: map[string]bool{}}
 	if pkg != nil {
 		fc.info = pkg.TypesInfo
 	}
@@ -377,7 +388,7 @@ func (fc *FuncCtx) funcShortOr() string { return fc.funcShort() }
 // initialisers and that the variables it mentions are never assigned afterwards.
 func (w *World) verifyGlobalInvs(pkgPath string) (fc *FuncCtx) {
 	pkg := w.Pkgs[pkgPath]
-	fc = &FuncCtx{w: w, pkg: pkg, info: pkg.TypesInfo, key: pkgPath + ".globals", counter: map[string]int{}, allVars: map[*types.Var]bool{}, usedContracts: map[string]bool{},
+	fc = &FuncCtx{w: w, pkg: pkg, info: pkg.TypesInfo, key: pkgPath + ".globals", counter: map[string]int{}, allVars: map[*types.Var]bool{}, usedContracts: map[string]bool{}, sideSeen: map[string]bool{},
 		contract: &Contract{Loops: map[int]*LoopContract{}, Opts: map[string]string{}, Pkg: pkg}}
 	defer func() {
 		if r := recover(); r != nil {
@@ -510,4 +521,19 @@ func (w *World) assignedSomewhere(gv *types.Var) string {
 		}
 	}
 	return ""
+}
+
+func setSide(env *CEnv, side *[]string) {
+	for e := env; e != nil; e = nil {
+		e.side = side
+		if e.old != nil {
+			e.old.side = side
+		}
+		if e.pre != nil {
+			e.pre.side = side
+		}
+		if e.iter != nil {
+			e.iter.side = side
+		}
+	}
 }
